@@ -152,3 +152,27 @@ def lib_kv(curve_or_vector):
     """library knot vector (concrete) -> KV"""
     vec = getattr(curve_or_vector, "knotvector", curve_or_vector)
     return kv_from_list([Fraction(x) for x in vec], vec.degree)
+
+
+def to_bernstein(poly: Poly, a, b, n=None):
+    """Bernstein coefficients on [a, b] (degree n >= deg poly) of a polynomial given in powers of u.
+    |p(u)| <= max |b_k| on [a, b] (convex hull property), so bounds on these coefficients are bounds
+    on the function."""
+    from math import comb
+    h = b - a
+    # powers of t where u = a + h t  (Horner composition)
+    c = list(poly.c)
+    q = Poly([0])
+    lin = Poly([a, h])
+    for ck in reversed(c):
+        q = q * lin + ck
+    d = len(q.c) - 1
+    n = d if n is None else max(n, d)
+    pc = pad(q.c, n + 1)
+    out = []
+    for k in range(n + 1):
+        acc = 0
+        for j in range(k + 1):
+            acc = acc + pc[j] * Fraction(comb(k, j), comb(n, j))
+        out.append(acc)
+    return out
